@@ -22,6 +22,10 @@ type seqCheck struct {
 	need           []string
 	rule           string
 	restart        bool
+	// post, when set, runs once after the sequential exploration: cross-path oracles
+	// (what one path returned compared with what another path returned), their vacuity
+	// guards and their evidence fields
+	post func(r *ev.Run, total *lx.SeqStats, cov ev.Coverage)
 	// conc, when set, is a concurrent (K2) half run after the sequential one
 	conc       func() ([]*sched.Scenario, error)
 	concBoundQ int
@@ -76,6 +80,9 @@ func registerSeq(sc seqCheck) {
 		vacuous(r, total, sc.need...)
 		cov := seqCoverage(last, total, sc.rule)
 		cov["configurations"] = len(sc.configs)
+		if sc.post != nil {
+			sc.post(r, total, cov)
+		}
 		if sc.conc != nil && !r.Expired() {
 			concPhase(r, cov, sc.conc, sc.concBoundQ, sc.concBoundT)
 		}
